@@ -392,7 +392,7 @@ Proof.
   { apply Forall_forall. intros x Hx. apply in_rev in Hx. rewrite Forall_forall in Hs. apply Hs. exact Hx. }
   destruct (rev s) as [|c1 r1].
   - left. rewrite app_nil_r in Hp. symmetry. exact Hp.
-  - right. inversion Hs' as [|? ? Hc1 _]; subst c1. rewrite Hp at 2.
+  - right. inversion Hs' as [|? ? Hc1 _]; subst c1. rewrite Hp.
     change (SLASH :: r1) with ([SLASH] ++ r1). rewrite app_assoc. apply zprefix_app.
 Qed.
 
@@ -406,7 +406,8 @@ Qed.
 
 Lemma via_false fs L dp : fsinv fs L -> pre dp L -> via_link fs dp = false.
 Proof.
-  intros Hf Hp. unfold via_link. destruct (existsb _ fs) eqn:E; [exfalso|reflexivity].
+  intros Hf Hp. unfold via_link.
+  match goal with |- existsb ?f fs = false => destruct (existsb f fs) eqn:E end; [exfalso|reflexivity].
   apply existsb_exists in E as (e & He & Hc). apply andb_true_iff in Hc as [Hk Hz].
   destruct e as [q k]. simpl in *. destruct k; try discriminate.
   rewrite (Hp q (Hf q He)) in Hz. discriminate.
@@ -473,7 +474,8 @@ Definition PostR (fsym : bool) (dp : bytes) (fs : fsT) (L : list bytes) (r : res
 
 Lemma Seg_nil fsym dp fs L : linv L -> Seg fsym dp fs L [] fs L.
 Proof.
-  intros Hl. repeat split; auto. simpl. exact I.
+  intros Hl. split; [reflexivity|]. split; [exact Hl|]. split; [auto|]. split; [exact I|].
+  intros Hf. split; [exact Hf|constructor].
 Qed.
 
 Lemma Seg_app fsym dp dp' fs L ops1 fs1 L1 ops2 fs2 L2 :
@@ -491,6 +493,15 @@ Proof.
     + apply links_safe_app; [exact Hs1|]. rewrite <- Ha1. exact Hs2.
     + intros Hf. destruct (Hf1 Hf) as [Hf1' Ht1]. destruct (Hf2 Hf1') as [Hf2' Ht2].
       split; [exact Hf2'|]. apply Forall_app. split; assumption.
+Qed.
+
+Lemma Seg_weaken fsym dp dp' fs L ops fs' L' :
+  zprefix dp dp' = true -> Seg fsym dp' fs L ops fs' L' -> Seg fsym dp fs L ops fs' L'.
+Proof.
+  intros Hpp (A & B & C & D & E).
+  split; [exact A|]. split; [exact B|]. split; [|split; [exact D|exact E]].
+  intros q Hq. destruct (C q Hq) as [H | H]; [left; exact H|right].
+  eapply zprefix_trans; eassumption.
 Qed.
 
 (* one operation on dp that creates no link *)
@@ -530,7 +541,10 @@ Section Safe.
   Variable orc : bytes -> res.
   Variable c : cfg.
   Hypothesis Hdup : dupcheck c = true.
-  Let fsym := follow c.
+  Let fsym := negb (presfix c) && follow c.
+
+  Lemma fl_fsym : (if presfix c then false else follow c) = true -> fsym = true.
+  Proof. unfold fsym. destruct (presfix c); simpl; [discriminate|auto]. Qed.
 
   Definition RecOK (rec : node -> bytes -> state -> result) : Prop :=
     forall n dp fs L, linv L -> pre dp L -> PostR fsym dp fs L (rec n dp (fs, L)).
@@ -549,11 +563,7 @@ Section Safe.
       destruct (rec (snd e) (pjoin dp (fst e)) (fs, L)) as [[o1 [fs1 L1]] r1].
       unfold PostR in H1. simpl in H1.
       assert (Seg fsym dp fs L o1 fs1 L1) as H1'.
-      { destruct H1 as (A & B & C & D & E). repeat split; try assumption.
-        - intros q Hq. destruct (C q Hq) as [H | H]; [left; exact H|right].
-          eapply zprefix_trans; [apply zprefix_pjoin; exact Esl|exact H].
-        - apply E; assumption.
-        - apply E; assumption. }
+      { eapply Seg_weaken; [apply zprefix_pjoin; exact Esl|exact H1]. }
       assert (~ In dp L1) as Hni1.
       { destruct H1 as (_ & B & C & _). eapply notin_grow_child; eassumption. }
       destruct r1 as [x|]; [split; [exact H1'|exact Hni1]|].
@@ -604,10 +614,10 @@ Section Safe.
                 -- intros _. eapply thru_false; eassumption.
                 -- rewrite (thru_false fs L dp false Hf Hp Em). discriminate. }
         apply preserve_step_post; [exact HS|apply pre_self_cons; exact Hp| |].
-        * intros Hfl _. exact Hfl.
+        * intros Hfl _. apply fl_fsym. exact Hfl.
         * intros Hf Ht. unfold thru_of in Ht.
           rewrite (via_false _ _ dp Hf (pre_self_cons dp L Hp)) in Ht. simpl in Ht.
-          apply andb_true_iff in Ht as [Ht _]. exact Ht.
+          apply andb_true_iff in Ht as [Ht _]. apply fl_fsym. exact Ht.
       + apply do_symlink_false in Es. subst fs1.
         apply Seg_one; try reflexivity; try assumption.
         * intros _. exact Em.
@@ -682,3 +692,295 @@ Section Safe.
     - intros Hf. split; [exact Hf|]. split; [discriminate|discriminate].
   Qed.
 End Safe.
+
+(* ---------- the whole copy (_begin_copy) ------------------------------------------------------ *)
+
+Section Whole.
+  Variable orc : bytes -> res.
+  Variable c : cfg.
+  Hypothesis Hdup : dupcheck c = true.
+  Let fsym := negb (presfix c) && follow c.
+
+  Lemma copy_tops_post rec dst isd : RecOK c rec ->
+    forall srcs fs L,
+      Forall (fun e => mem_z SLASH (fst e) = false) srcs ->
+      linv L -> pre dst L -> (isd = true -> ~ In dst L) ->
+      PostR fsym dst fs L (copy_tops rec dst isd srcs (fs, L)).
+  Proof.
+    intros Hrec. induction srcs as [|e rest IH]; intros fs L Hs Hl Hp Hni; simpl.
+    - apply Seg_nil. exact Hl.
+    - inversion Hs as [|? ? He Hrest]; subst. apply mem_z_false in He.
+      assert (pre (if isd then pjoin dst (fst e) else dst) L) as Hpd.
+      { destruct isd; [apply pre_child; auto|exact Hp]. }
+      assert (zprefix dst (if isd then pjoin dst (fst e) else dst) = true) as Hpp.
+      { destruct isd; [apply zprefix_pjoin; exact He|apply zprefix_refl]. }
+      pose proof (Hrec (snd e) _ fs L Hl Hpd) as H1.
+      destruct (rec (snd e) (if isd then pjoin dst (fst e) else dst) (fs, L)) as [[o1 [fs1 L1]] r1].
+      unfold PostR in H1. simpl in H1.
+      assert (Seg fsym dst fs L o1 fs1 L1) as H1' by (eapply Seg_weaken; eassumption).
+      destruct r1 as [x|]; [exact H1'|].
+      assert (linv L1) as Hl1 by (destruct H1 as (_ & B & _); exact B).
+      assert (pre dst L1) as Hp1.
+      { destruct H1' as (_ & _ & C & _). eapply pre_grow; eassumption. }
+      assert (isd = true -> ~ In dst L1) as Hni1.
+      { intros Hi. subst isd. destruct H1 as (_ & B & C & _).
+        eapply notin_grow_child; [apply Hni; reflexivity|exact He|exact B|exact C]. }
+      pose proof (IH fs1 L1 Hrest Hl1 Hp1 Hni1) as H2.
+      destruct (copy_tops rec dst isd rest (fs1, L1)) as [[o2 [fs2 L2]] r2].
+      unfold PostR in *. simpl in *.
+      eapply Seg_app; [apply zprefix_refl|exact H1'|exact H2].
+  Qed.
+
+  Lemma begin_copy_post fuel dst srcs fs0 :
+    Forall (fun e => mem_z SLASH (fst e) = false) srcs ->
+    PostR fsym dst fs0 [] (begin_copy orc c fuel dst srcs fs0).
+  Proof.
+    intros Hs. unfold begin_copy.
+    assert (linv []) as Hl0 by (intros q []).
+    assert (pre dst []) as Hp0 by (intros q []).
+    assert (Seg fsym dst fs0 [] [OIsdir dst (res_dir (resolve orc fs0 dst)) (thru_of fs0 dst true)] fs0 []) as H0.
+    { apply Seg_one; try reflexivity; try assumption.
+      - intros _ [].
+      - discriminate.
+      - intros Hf. split; [exact Hf|]. split; simpl.
+        + intros _. eapply thru_false; [exact Hf|exact Hp0|intros []].
+        + rewrite (thru_false fs0 [] dst true Hf Hp0 (fun x => x)). discriminate. }
+    destruct ((1 <? Z.of_nat (length srcs)) && negb (res_dir (resolve orc fs0 dst))); [exact H0|].
+    pose proof (copy_tops_post (copy_node orc c fuel) dst (res_dir (resolve orc fs0 dst))
+                  (copy_node_post orc c Hdup fuel) srcs fs0 [] Hs Hl0 Hp0 (fun _ x => x)) as H.
+    destruct (copy_tops _ dst _ srcs (fs0, [])) as [[ops [fs1 L1]] r].
+    unfold PostR in *. simpl in *.
+    change (OIsdir dst (res_dir (resolve orc fs0 dst)) (thru_of fs0 dst true) :: ops)
+      with ([OIsdir dst (res_dir (resolve orc fs0 dst)) (thru_of fs0 dst true)] ++ ops).
+    eapply Seg_app; [apply zprefix_refl|exact H0|exact H].
+  Qed.
+End Whole.
+
+Lemma links_safe_app_inv fsym : forall a L b,
+  links_safe fsym L (a ++ b) -> links_safe fsym (links_after L a) b.
+Proof.
+  induction a as [|o a IH]; intros L b H; simpl in *; [exact H|].
+  destruct H as [_ H]. apply IH. exact H.
+Qed.
+
+Lemma links_safe_in fsym : forall l L o q,
+  links_safe fsym L l -> In o l -> In q L ->
+  zprefix (q ++ [SLASH]) (op_path o) = false /\
+  (strict o = true -> op_path o <> q) /\
+  (follows o = true -> op_path o = q -> fsym = true).
+Proof.
+  induction l as [|x l IH]; intros L o q Hs Ho Hq; [destruct Ho|].
+  simpl in Hs. destruct Hs as [(A & B & C) Hs]. destruct Ho as [<- | Ho].
+  - split; [apply A; exact Hq|]. split.
+    + intros Hst He. apply (B Hst). rewrite He. exact Hq.
+    + intros Hfo He. apply (C Hfo). rewrite He. exact Hq.
+  - apply (IH (created x ++ L)); [exact Hs|exact Ho|]. apply in_or_app. right. exact Hq.
+Qed.
+
+Definition no_links (fs : fsT) : Prop := forall q, ~ In (q, KLink) fs.
+
+(* what the proofs above give for a complete plan *)
+Lemma plan_facts orc c dst srcs fs0 :
+  dupcheck c = true -> Forall (fun e => mem_z SLASH (fst e) = false) srcs ->
+  links_safe (negb (presfix c) && follow c) [] (copy_plan orc c dst srcs fs0) /\
+  (no_links fs0 -> Forall (thru_ok (negb (presfix c) && follow c)) (copy_plan orc c dst srcs fs0)).
+Proof.
+  intros Hd Hs. unfold copy_plan.
+  pose proof (begin_copy_post orc c Hd (S (srcs_size srcs)) dst srcs fs0 Hs) as H.
+  unfold PostR in H. destruct H as (_ & _ & _ & H4 & H5). split; [exact H4|].
+  intros Hn. apply H5. intros q Hq. exfalso. exact (Hn q Hq).
+Qed.
+
+(* T2: after the plan has created a symbolic link at q, no later operation has q as a proper
+   directory prefix of its path, and none of isdir / mkdir / symlink / open-for-write is on q *)
+Theorem copy_never_through_new_link orc c dst srcs fs0 :
+  dupcheck c = true -> Forall (fun e => mem_z SLASH (fst e) = false) srcs ->
+  forall l1 t q th l2 o,
+    copy_plan orc c dst srcs fs0 = l1 ++ OSymlink t q true th :: l2 -> In o l2 ->
+    zprefix (q ++ [SLASH]) (op_path o) = false /\ (strict o = true -> op_path o <> q).
+Proof.
+  intros Hd Hs l1 t q th l2 o Heq Ho.
+  destruct (plan_facts orc c dst srcs fs0 Hd Hs) as [H _]. rewrite Heq in H.
+  apply links_safe_app_inv in H. simpl in H. destruct H as [_ H].
+  destruct (links_safe_in _ _ _ o q H Ho (or_introl eq_refl)) as (A & B & _). auto.
+Qed.
+
+(* T4: a setstat on a link created by the plan never follows it *)
+Theorem copy_preserve_never_follows_new_link orc c dst srcs fs0 :
+  dupcheck c = true -> presfix c = true -> Forall (fun e => mem_z SLASH (fst e) = false) srcs ->
+  forall l1 t q th l2 p ok th',
+    copy_plan orc c dst srcs fs0 = l1 ++ OSymlink t q true th :: l2 ->
+    In (OSetstat p true ok th') l2 -> p <> q.
+Proof.
+  intros Hd Hpf Hs l1 t q th l2 p ok th' Heq Ho Hpq.
+  destruct (plan_facts orc c dst srcs fs0 Hd Hs) as [H _]. rewrite Heq in H.
+  apply links_safe_app_inv in H. simpl in H. destruct H as [_ H].
+  destruct (links_safe_in _ _ _ _ q H Ho (or_introl eq_refl)) as (_ & _ & C).
+  rewrite Hpf in C. simpl in C. specialize (C eq_refl Hpq). discriminate.
+Qed.
+
+(* T2, physical form: when the destination holds no symbolic link before the copy, the resolution
+   of the path of every operation of the plan traverses no symbolic link at all *)
+Theorem copy_resolves_inside orc c dst srcs fs0 :
+  dupcheck c = true -> presfix c = true -> Forall (fun e => mem_z SLASH (fst e) = false) srcs ->
+  no_links fs0 ->
+  Forall (fun o => op_thru o = false) (copy_plan orc c dst srcs fs0).
+Proof.
+  intros Hd Hpf Hs Hn.
+  destruct (plan_facts orc c dst srcs fs0 Hd Hs) as [_ H]. specialize (H Hn).
+  eapply Forall_impl; [|exact H]. intros o [_ Ho]. rewrite Hpf in Ho. simpl in Ho.
+  destruct (op_thru o); [specialize (Ho eq_refl); discriminate|reflexivity].
+Qed.
+
+(* the same without the 6e0d949 repair, when the caller does not ask for follow_symlinks *)
+Theorem copy_resolves_inside_nofollow orc c dst srcs fs0 :
+  dupcheck c = true -> follow c = false -> Forall (fun e => mem_z SLASH (fst e) = false) srcs ->
+  no_links fs0 ->
+  Forall (fun o => op_thru o = false) (copy_plan orc c dst srcs fs0).
+Proof.
+  intros Hd Hfo Hs Hn.
+  destruct (plan_facts orc c dst srcs fs0 Hd Hs) as [_ H]. specialize (H Hn).
+  eapply Forall_impl; [|exact H]. intros o [_ Ho]. rewrite Hfo, andb_false_r in Ho.
+  destruct (op_thru o); [specialize (Ho eq_refl); discriminate|reflexivity].
+Qed.
+
+(* ---------- refutations of the unrepaired procedures ------------------------------------------ *)
+
+Definition w_dst : bytes := [100].                                   (* "d" *)
+Definition w_fs0 : fsT := [(w_dst, KDir)].
+Definition w_orc (p : bytes) : res := if zlist_eqb p [100;47;116;47;120] then RDir else RNone.
+(* t/ = [ x -> "/o" ; x/ = [ e ] ] *)
+Definition w_dup : list (bytes * node) :=
+  [([116], Dir [([120], Link [47;111] Broken); ([120], Dir [([101], File true)] true)] true)].
+(* t/ = [ x -> "/o", and the following stat still says "symbolic link" ] *)
+Definition w_pres : list (bytes * node) :=
+  [([116], Dir [([120], Link [47;111] (Link [] Broken))] true)].
+
+Lemma w_fs0_no_links : no_links w_fs0.
+Proof. intros q [H | []]. inversion H. Qed.
+
+(* T3: before a79246f a listed link followed by a directory of the same name is written through *)
+Theorem copy_old_refuted :
+  exists orc c dst srcs fs0,
+    no_links fs0 /\ Forall (fun e => mem_z SLASH (fst e) = false) srcs /\
+    exists l1 t q th l2 o,
+      copy_plan_old orc c dst srcs fs0 = l1 ++ OSymlink t q true th :: l2 /\ In o l2 /\
+      strict o = true /\ zprefix (q ++ [SLASH]) (op_path o) = true /\ op_thru o = true.
+Proof.
+  exists w_orc, (mkcfg false true false false), w_dst, w_dup, w_fs0.
+  split; [exact w_fs0_no_links|]. split; [repeat constructor|].
+  exists [OIsdir [100] true false; OIsdir [100;47;116] false false; OMkdir [100;47;116] true false],
+         [47;111], [100;47;116;47;120], false,
+         [OIsdir [100;47;116;47;120] true true; OWrite [100;47;116;47;120;47;101] true true],
+         (OWrite [100;47;116;47;120;47;101] true true).
+  split; [vm_compute; reflexivity|]. split; [right; left; reflexivity|].
+  split; [reflexivity|]. split; reflexivity.
+Qed.
+
+(* before 6e0d949: with follow_symlinks and preserve, a source whose following stat still says
+   "symbolic link" makes the copy set attributes THROUGH the link it has just created *)
+Theorem copy_preserve_old_refuted :
+  exists orc c dst srcs fs0,
+    no_links fs0 /\ dupcheck c = true /\
+    exists l1 t q th l2 ok,
+      copy_plan orc c dst srcs fs0 = l1 ++ OSymlink t q true th :: l2 /\
+      In (OSetstat q true ok true) l2.
+Proof.
+  exists (fun _ => RFile), (old_pres (mkcfg true true true false)), w_dst, w_pres, w_fs0.
+  split; [exact w_fs0_no_links|]. split; [reflexivity|].
+  exists [OIsdir [100] true false; OIsdir [100;47;116] false false; OMkdir [100;47;116] true false],
+         [47;111], [100;47;116;47;120], false,
+         [OSetstat [100;47;116;47;120] true true true; OSetstat [100;47;116] true true false], true.
+  split; [vm_compute; reflexivity|]. left. reflexivity.
+Qed.
+
+(* ---------- glob expansion dir/* --------------------------------------------------------------- *)
+
+Lemma upto_slash_app a b : ~ In SLASH a -> upto_slash (a ++ SLASH :: b) = a.
+Proof.
+  induction a as [|x a IH]; intros H; simpl.
+  - reflexivity.
+  - destruct (x =? SLASH) eqn:E.
+    + apply Z.eqb_eq in E. exfalso. apply H. left. exact E.
+    + rewrite IH; [reflexivity|]. intros Hin. apply H. right. exact Hin.
+Qed.
+
+Lemma upto_slash_noslash a : ~ In SLASH a -> upto_slash a = a.
+Proof.
+  induction a as [|x a IH]; intros H; simpl; [reflexivity|].
+  destruct (x =? SLASH) eqn:E.
+  - apply Z.eqb_eq in E. exfalso. apply H. left. exact E.
+  - rewrite IH; [reflexivity|]. intros Hin. apply H. right. exact Hin.
+Qed.
+
+Lemma basename_pjoin dir n : ~ In SLASH n -> basename (pjoin dir n) = n.
+Proof.
+  intros Hn. assert (~ In SLASH (rev n)) as Hr by (intros H; apply Hn; apply in_rev; exact H).
+  rewrite (pjoin_noslash _ _ Hn). unfold basename.
+  destruct (is_nil dir || ends_with_slash dir) eqn:E.
+  - rewrite rev_app_distr. unfold ends_with_slash in E.
+    destruct (rev dir) as [|x r] eqn:Erev.
+    + rewrite app_nil_r, (upto_slash_noslash _ Hr). apply rev_involutive.
+    + destruct dir as [|d0 dr]; [discriminate|]. simpl in E. apply Z.eqb_eq in E. subst x.
+      rewrite (upto_slash_app _ _ Hr). apply rev_involutive.
+  - rewrite rev_app_distr. simpl. rewrite <- app_assoc. simpl.
+    rewrite (upto_slash_app _ _ Hr). apply rev_involutive.
+Qed.
+
+Lemma glob_scan_names dir : forall listing,
+  Forall (fun e => get_name_skipped (fst e) = false /\ mem_z SLASH (fst e) = false)
+         (fst (glob_scan true dir listing)).
+Proof.
+  induction listing as [|e r IH]; simpl; [constructor|].
+  destruct (get_name_skipped (fst e)) eqn:Esk; [exact IH|].
+  destruct (mem_z SLASH (fst e)) eqn:Esl; simpl; [constructor|].
+  destruct (glob_scan true dir r) as [m x]. simpl in *.
+  constructor; [|exact IH]. simpl.
+  rewrite (basename_pjoin dir (fst e)) by (apply mem_z_false; exact Esl). auto.
+Qed.
+
+(* T1 for a glob: whatever the listing contains, every operation stays lexically inside dst *)
+Theorem copy_glob_paths_under_dst orc c dst dir listing fs0 :
+  dst <> [] -> ends_with_slash dst = false ->
+  Forall (fun o => under_dst dst (op_path o)) (copy_plan_glob orc c true dst dir listing fs0).
+Proof.
+  intros Hne Hd. unfold copy_plan_glob, begin_copy_glob, glob_star.
+  pose proof (glob_scan_names dir listing) as Hn.
+  destruct (glob_scan true dir listing) as [m x]. simpl in Hn.
+  assert (forall fuel, Forall (fun o => under_dst dst (op_path o))
+                              (fst (fst (begin_copy orc c fuel dst m fs0)))) as Hb.
+  { intros fuel. apply (begin_copy_paths (under_dst dst)).
+    - intros p n Hp H1 H2. apply under_dst_pjoin; assumption.
+    - apply under_dst_self.
+    - exact Hn. }
+  destruct x as [e|].
+  - destruct (handler c); simpl; [apply Hb|constructor].
+  - destruct (is_nil_l m); [destruct (handler c); simpl; [apply Hb|constructor]|simpl; apply Hb].
+Qed.
+
+Lemma not_under_dotdot : ~ under_dst [100] [100;47;46;46].
+Proof.
+  intros (comps & ts & Hc & Hts & Heq). simpl in Heq. inversion Heq as [H]. clear Heq.
+  destruct comps as [|c1 r].
+  - simpl in H. destruct Hts as [-> | ->]; discriminate.
+  - inversion Hc as [|? ? (Hne & Hdot & Hdd & Hns) _]; subst. simpl in H. inversion H as [H']. clear H.
+    destruct c1 as [|a [|b [|d c1']]].
+    + congruence.
+    + simpl in H'. inversion H'; subst. apply Hdot. reflexivity.
+    + simpl in H'. inversion H'; subst. apply Hdd. reflexivity.
+    + simpl in H'. inversion H'.
+Qed.
+
+(* before abbc782 a listed name "f/.." matched the pattern and its basename ".." left dst *)
+Theorem copy_glob_old_refuted :
+  exists orc c dst dir listing fs0,
+    dst <> [] /\ ends_with_slash dst = false /\
+    ~ Forall (fun o => under_dst dst (op_path o)) (copy_plan_glob orc c false dst dir listing fs0).
+Proof.
+  exists (fun _ => RNone), (mkcfg false true false false), w_dst, [115],
+         [([102;47;46;46], Dir [([101], File true)] true)], w_fs0.
+  split; [discriminate|]. split; [reflexivity|].
+  intros H. vm_compute in H.
+  inversion H as [|? ? _ H1]; subst. inversion H1 as [|? ? H2 _]; subst.
+  exact (not_under_dotdot H2).
+Qed.
